@@ -37,7 +37,7 @@ def main():
                 open(p, "w").write(s.replace(e["old"], e["new"]))
             if not ok:
                 continue
-            b = sh("cd %s && go build ./... 2>&1 | tail -5" % REPO)
+            b = sh("cd %s && GOFLAGS=-mod=mod GOPROXY=off GOSUMDB=off GOTOOLCHAIN=local go1.26.8 build ./... 2>&1 | tail -5" % REPO)
             if b.stdout.strip():
                 print("%s: does not build: %s" % (m["id"], b.stdout)); continue
             for prop in m["props"]:
